@@ -128,6 +128,37 @@ Example C10_host_normalisation_nonvacuous :
   /\ to_lower "KUBE-1" = to_lower "kube-1" /\ host_without_port "KUBE-1:6443" = "kube-1".
 Proof. vm_compute. repeat split; try reflexivity; discriminate. Qed.
 
+(* ---------------------------------------------------------------- why deliveries must be serial
+   All theorems above quantify over histories whose events are processed ONE AT A TIME; the correspondence run
+   checks that on the real controller (clause serial_delivery: under the real Run() no two sync handler
+   executions are ever in progress together).  The assumption is necessary: syncUpstreamCluster answers its
+   conflict checks and stores the names later with no lock in between.  Two workers creating clusters a and b
+   that both claim "x" can both pass every check on the empty manager; after both stored, "x" is a current
+   server name of the served cluster a but resolves to b. *)
+Theorem C10_concurrent_sync_captures_name_witness :
+  exists oa ob ia ib,
+    let g0 := empty_gw in
+    (* both workers' checks (checkUpstreamServerNameConflict, and checkServerNameConflict inside
+       AddOrUpdateForServerNames) are answered on the state before either of them stored anything *)
+    conflict_upstream g0 oa = false /\ conflict_upstream g0 ob = false
+    /\ create_info oa = Some ia /\ create_info ob = Some ib
+    /\ check_conflict g0 (i_cluster ia) [] (load_names ia) = false
+    /\ check_conflict g0 (i_cluster ib) [] (load_names ib) = false
+    /\ let g := racy_store ib (racy_store ia g0) in
+       resolve_cluster g "a" = Some "a" /\ In "x" (allnames oa)
+       /\ resolve_cluster g "x" = Some "b"
+       (* one worker: the second cluster is refused instead *)
+       /\ resolve_cluster (fst (burst_run [oa; ob] [oa; ob] g0)) "x" = Some "a"
+       /\ snd (burst_run [oa; ob] [oa; ob] g0) = [ROk; RRequeue].
+Proof.
+  exists (mk "a" ["x"] 0 0 0), (mk "b" ["x"] 0 0 0).
+  destruct (create_info (mk "a" ["x"] 0 0 0)) as [ia|] eqn:Ea; [|vm_compute in Ea; discriminate].
+  destruct (create_info (mk "b" ["x"] 0 0 0)) as [ib|] eqn:Eb; [|vm_compute in Eb; discriminate].
+  exists ia, ib. vm_compute in Ea, Eb. injection Ea as <-. injection Eb as <-.
+  vm_compute. repeat split; try reflexivity. right. now left.
+Qed.
+Print Assumptions C10_concurrent_sync_captures_name_witness.
+
 (* ---------------------------------------------------------------- outside the quantifier (recorded, not a check failure)
    If an object that validation would refuse reaches the controller (here: an endpoint the data plane
    cannot create, admission bypassed) ClusterInfo.Sync fails AFTER the secure-serving section was stored;
